@@ -13,7 +13,7 @@ from .. import crashsim
 LEVEL = "fault_enumeration"
 SHRINK = (40, 150.0)
 ISOLATE = False  # isolation is per configuration (the whole _config_task runs in a forked child)
-KINDS = ("reference", "die", "raise", "staging-off-named", "staging-off-unnamed")
+KINDS = ("reference", "die", "raise", "staging-off-named", "staging-off-unnamed", "concurrent")
 WHERE = ("boundary", "stage-edge", "interior", "anywhere", "inside-fits-writer")
 
 _REF = {}
@@ -123,6 +123,9 @@ def scn_case(ctx):
         ctx.log(f"case reference-only boundaries_checked={K}")
         return
     src = _src()
+    if kind == "concurrent":
+        _concurrent_case(ctx, cfg, desc, clock)
+        return
     if kind.startswith("staging-off"):
         named = kind.endswith("-named")
         fr = crashsim.fault_run(cfg, desc["rng_seed"], clock, src, None, write_stages=False, give_output=named)
@@ -246,6 +249,47 @@ def scn_case(ctx):
         ctx.probes["other_files_left_after_failure"] += 1
 
 
+def _concurrent_case(ctx, cfg, desc, clock):
+    """Two or three staged runs interleaved in one process, same directory: every run's file
+    must be, at each of its own stage boundaries, the table of its own stages completed so far."""
+    ch = ctx.ch
+    n = 2 + (ch.draw(4, "conc_n") == 3)
+    cfgs = [cfg]
+    for i in range(1, n):
+        if ch.draw(2, "conc_same_config") == 0:
+            cfgs.append(cfg.model_copy(deep=True))
+        else:
+            c2, d2 = draw_config(ch, max_events=24, allow_zero=False)
+            cfgs.append(c2)
+    res = crashsim.concurrent_runs(ctx, cfgs, desc["rng_seed"], clock, _src())
+    ctx.nontrivial = res[0]["switches"] > 0
+    ctx.faults["interleaved_second_run"] += 1
+    ctx.probes["concurrent_context_switches"] += res[0]["switches"]
+    ctx.probes["preempted_right_after_a_file_operation"] += sum(r["hot_stops"] for r in res)
+    ctx.log(f"case concurrent runs={n} switches={res[0]['switches']} K={[r['K'] for r in res]} status={[r['status'][:20] for r in res]} grants={[r['grants'] for r in res]}")
+    for i, r in enumerate(res):
+        ctx.steps += r["steps"]
+        if r["status"] != "returned":
+            # a run that returns alone must return in company as well
+            ctx.violate("c17.concurrent_run_fails", f"run {i} of {n} concurrent staged runs raised {r['status']}", "concurrent")
+            continue
+        grow = [nm for (nm, sp) in zip(r["stage_names"], r["spans"]) if sp[2]]
+        for k in range(1, r["K"] + 1):
+            name = grow[k - 1] if k - 1 < len(grow) else "?"
+            s_, w_ = r["snaps"][k], r["sides"][k]
+            if s_ is None:
+                ctx.violate("c17.concurrent_boundary_content", f"run {i} of {n} concurrent staged runs: no file after its stage boundary {k} ({name})", "concurrent")
+                break
+            diff = crashsim.describe_diff(s_, w_)
+            if diff:
+                ctx.violate("c17.concurrent_boundary_content", f"run {i} of {n} concurrent staged runs: after its stage boundary {k} of {r['K']} ({name}) its file is not the table of its own completed stages: {diff}", "concurrent")
+                break
+        if r["K"] >= 1 and r.get("file") is not None:
+            diff = crashsim.describe_diff(r["file"], r["final"])
+            if diff:
+                ctx.violate("c17.concurrent_boundary_content", f"run {i} of {n} concurrent staged runs: its file at the end differs from its final table: {diff}", "concurrent")
+
+
 FAMILIES = {"case": scn_case}
 PLAN = {"quick": [("case", 64, 4)], "thorough": [("case", 64, 4)]}  # used by selftest/digests only
 BUDGET = {"quick": 400, "thorough": 3000}
@@ -323,6 +367,8 @@ def _config_task_body(args):
             cases.append([1 + rnd.draw(2, "kind"), 4, rnd.draw(64, "fits_k"), rnd.draw(14000, "fits_line")])
         cases.append([3])
         cases.append([4])
+        for i in range(4 if tier == "quick" else 8):  # concurrent staged runs, seeded interleavings
+            cases.append([5] + [rnd.draw(6, "c") for _ in range(240)])
         for cv in cases:
             if run(cv) is None:
                 break
@@ -363,20 +409,23 @@ META = {
     "rule": (
         "one run = one configuration (seeded: mode, events, spectrum, cloud, channels, detector, tables, target, RNG seed, simulated clock) "
         "+ one case: the fault-free reference with a snapshot at every stage boundary, or compute() in a forked child killed with os._exit / failed by an "
-        "exception raised from the trace function at a chosen traced step, or a run with staging off. Per configuration the boundary cases are "
+        "exception raised from the trace function at a chosen traced step, or a run with staging off, or 2-3 staged runs interleaved in one process by a "
+        "seeded baton scheduler (pre-emption at repository-line granularity, biased to land right after a file operation) into the same directory. Per configuration the boundary cases are "
         "enumerated exhaustively (every boundary k=0..K x {die, raise}) plus first/last step of every stage, stratified interior steps (incl. inside dask tasks), "
         "uniform steps, and steps inside astropy.io.fits (observed only). Non-trivial: a fault actually fired, or a staging-off run, or a reference with >=1 boundary; "
         "distinct = distinct event-log digests (config, case, reported k / site, verdict)"
     ),
     "components_real": ["nuspacesim.compute and all stages", "astropy Table / FITS writer and reader", "the file system (private scratch directory per run)",
                         "dask synchronous scheduler", "numpy global RNG (seeded per configuration)", "os.fork / os._exit (process death)"],
-    "components_simulated": ["wall clock (results_table.datetime replaced)", "the instant of failure (seeded traced step)", "stage failure (exception injected through sys.settrace)"],
+    "components_simulated": ["wall clock (results_table.datetime replaced)", "the instant of failure (seeded traced step)", "stage failure (exception injected through sys.settrace)",
+                             "thread scheduling of concurrent staged runs (baton-passed real threads; progress-bar timer thread removed)"],
     "assumptions": [
         "a stage is a call made directly from compute()'s frame; a boundary is the return of such a call after which the results table has grown",
         "crash model: process death with the kernel page cache surviving (the code never fsyncs; power loss is outside the statement)",
         "a failure inside stage k+1 may leave prefix k or k+1 (the stage's own store may already have run); between stages exactly prefix k",
         "death inside the FITS writer itself is observed and classified, not asserted (the property speaks of death between stages)",
         "I/O errors of the write itself (ENOSPC, EIO) are not injected",
+        "concurrent staged runs share numpy's global generator, so their values differ from a solo run; the oracle there is only 'each run's file equals its own table at its own boundaries'",
         "configurations whose fault-free run raises are skipped (counted in probes.reference_run_raised); whether a run returns is C14's business",
     ],
 }
